@@ -649,4 +649,16 @@ def rule_fresh(ctx) -> RuleResult:
     return res
 
 
-RULES = [rule_alias, rule_fresh, rule_shape]
+def rule_source(ctx) -> RuleResult:
+    from ._c12_source import rule_source as impl
+
+    return impl(ctx, _flow)
+
+
+def rule_pgroup(ctx) -> RuleResult:
+    from ._c12_source import rule_pgroup as impl
+
+    return impl(ctx, _flow)
+
+
+RULES = [rule_alias, rule_fresh, rule_shape, rule_source, rule_pgroup]
